@@ -122,6 +122,31 @@ func (s *subscriberServer) CreateSubscription(
 	if req.PushConfig != nil {
 		params.PushEndpoint = req.PushConfig.PushEndpoint
 	}
+	// the action constructor panics on these, and a panic in a handler takes the
+	// whole server down
+	if params.TTL < 0 {
+		return nil, status.Error(codes.InvalidArgument, "expiration_policy.ttl must not be negative")
+	}
+	if params.MessageTTL < 0 {
+		return nil, status.Error(
+			codes.InvalidArgument,
+			"message_retention_duration must not be negative",
+		)
+	}
+	if req.DeadLetterPolicy != nil {
+		if params.MaxDeliveryAttempts < 0 {
+			return nil, status.Error(
+				codes.InvalidArgument,
+				"dead_letter_policy.max_delivery_attempts must not be negative",
+			)
+		}
+		if params.DeadLetterTopic == "" {
+			return nil, status.Error(
+				codes.InvalidArgument,
+				"dead_letter_policy.dead_letter_topic is required",
+			)
+		}
+	}
 	action := actions.NewCreateSubscription(params)
 	err := s.client.DoCtxTx(ctx, &sql.TxOptions{Isolation: sql.LevelSerializable}, action.Execute)
 	if err != nil {
